@@ -295,7 +295,7 @@ impl<M: AlignMarker> Ctx<M> {
                         when, self.tid, live, e0, cur
                     );
                     sh.soft("C16,C14", "announced-epoch-moved-inside-cs", det.clone());
-                    if cur.wrapping_sub(e0) >= 2 {
+                    if cur.wrapping_sub(e0) & (usize::MAX >> 1) >= 2 {
                         // two steps let the clock reach e0 + 3: garbage retired inside this very
                         // critical section expires while it is still active
                         sh.soft("C02,C13,C16,C14", "cs-protection-lost", det);
@@ -394,7 +394,18 @@ impl<M: AlignMarker> Ctx<M> {
                 sh.ucs[tid].suspended_uid = uid;
                 let me: *mut Ctx<M> = self as *mut Ctx<M>;
                 let gm: &mut Guard = unsafe { &mut (&mut (*me).guards)[a].as_mut().unwrap().g };
-                if o.k == K::Reactivate {
+                // a deferred function that panics inside the collection this call runs (b = 1 on
+                // Reactivate): the unwinding leaves the call early, the guard stays with its owner
+                let mut coll_panic = false;
+                if o.k == K::Reactivate && b == 1 {
+                    let r = std::panic::catch_unwind(std::panic::AssertUnwindSafe(|| gm.reactivate()));
+                    if let Err(e) = r {
+                        if !e.is::<InjectedPanic>() {
+                            std::panic::resume_unwind(e);
+                        }
+                        coll_panic = true;
+                    }
+                } else if o.k == K::Reactivate {
                     gm.reactivate();
                 } else {
                     let body = b;
@@ -430,7 +441,20 @@ impl<M: AlignMarker> Ctx<M> {
                         if !e.is::<InjectedPanic>() {
                             std::panic::resume_unwind(e);
                         }
+                        coll_panic = body != 1;
                     }
+                }
+                if coll_panic {
+                    // The guard is still live, so the thread has to be inside a critical section
+                    // (C16: "stays in its critical section until its last live guard is dropped");
+                    // whether that is the old one or a new one is not judged. The check at the
+                    // next op boundary compares the participant's state with the live guards.
+                    sim().probe("collection_panicked_inside_reactivate");
+                    let sh = shadow();
+                    sh.ucs[tid].suspended = false;
+                    self.cs_epoch = None;
+                    self.check_pin_state("after a deferred function panicked inside reactivate");
+                    return;
                 }
                 let sh = shadow();
                 sh.ucs[tid].suspended = false;
@@ -1363,7 +1387,11 @@ impl<M: AlignMarker> Ctx<M> {
             }
             K::Defer => {
                 if let Some((g, _)) = self.guard_ref(a) {
-                    crate::closures::defer_shape_chain(tid, g, b, o.c.min(4));
+                    if o.d == 1 {
+                        crate::closures::defer_panicking(tid, g);
+                    } else {
+                        crate::closures::defer_shape_chain(tid, g, b, o.c.min(4));
+                    }
                 }
             }
             K::TryAdvance => {
